@@ -3,5 +3,7 @@ package main
 func generators() []generator {
 	return []generator{
 		{"TimerExpr", genTimerExpr},
+		{"KeyTable", genKeyTable},
+		{"Consts", genConsts},
 	}
 }
